@@ -104,7 +104,7 @@ def run(pid, tier, programs=None, phases=()):
     known = [k for k in C.load_known().get("findings", []) if k.get("property") == pid]
     with C.Lock():
         lean_ok, names = C.lean_phase(res, pid, gen_fn=regen_memorder if pid == "C03" else None, thorough_modules=["Cuckoo.Model.Proto"],
-                                      extra_props={"C01": ["C01Conc"], "C04": ["C04Live"]}.get(pid, []))
+                                      extra_props={"C01": ["C01Conc"], "C04": ["C04Live"], "C06": ["C06Conc"]}.get(pid, []))
     if pid == "C03":
         tsan_runs(res, tier, known)
     for ph in phases:
